@@ -490,7 +490,7 @@ impl Prop for C01 {
             stub: &["the host: user/terminal issuing calls, the clock that seeds RND"],
             assumptions: &[
                 "worker thread stack = VERIF_STACK_MIB (default 8 MiB, the Linux main-thread default); the Web deployment has a smaller stack",
-                "a call that does not return within the watchdog period (60 s) counts as a wedge",
+                "a call that does not return within the watchdog period (45 s) counts as a wedge",
                 "protocol-violating host calls (e.g. provide_input while idle) are never issued; they assert by design",
             ],
             reach: &[
